@@ -1533,11 +1533,6 @@ package badger
 // StreamWriter: the largest version written is tracked for every entry, and Flush restarts the
 // timestamp oracle one above the larger of it and the current read timestamp, telling both
 // watermarks about that value.
-//@ func (*StreamWriter).Write.$1
-//@   props C11
-//@   light
-//@   assert[max-version-covers-entry] before call KeyWithTs : arg0 == kv.Key && arg1 == kv.Version && sw.maxVersion >= kv.Version
-
 //@ func (*StreamWriter).Flush
 //@   props C11 C26
 //@   light
@@ -1628,6 +1623,41 @@ package badger
 //@   light
 //@   assert[stall-when-full] before return#1 : !result && len(s.tables) >= s.db.opt.NumLevelZeroTablesStall
 //@   assert[appended-last] before call IncrRef : arg0 == t && len(s.tables) >= 1 && s.tables[len(s.tables)-1] == t && held(s.RWMutex)
+
+// The per-request step of a sorted writer: an inline entry is added with its value, meta, user
+// meta and expiry; a value-log entry with the pointer the value log returned for that entry and
+// the pointer bit; under the entry's own key (mirrors writeToLSM).
+//@ func (*sortedWriter).handleRequests.process
+//@   props C26 C06
+//@   light
+//@   assert[inline-entry-as-streamed] before call Add : !ret(skipVlogAndSetThreshold#1) || (arg2.Value == e.Value && arg2.Meta == e.meta && arg2.UserMeta == e.UserMeta && arg2.ExpiresAt == e.ExpiresAt)
+//@   assert[pointer-entry-as-streamed] before call Add : ret(skipVlogAndSetThreshold#1) || (arg2.Value == ret(Encode#1) && arg2.Meta == e.meta | bitValuePointer && arg2.UserMeta == e.UserMeta && arg2.ExpiresAt == e.ExpiresAt)
+//@   assert[pointer-of-this-entry] before call Encode : arg0 == req.Ptrs[i]
+//@   assert[under-own-key] before call Add : arg0 == w && arg1 == e.Key
+//@   assert[decision-of-this-entry] before call skipVlogAndSetThreshold : arg0 == e
+
+// StreamWriter.Write (after demultiplexing): all requests go to the value log first; each
+// stream's request goes to that stream's writer, which is created on first use one level above
+// the previous one; a closed stream's writer is finished and forgotten.
+//@ func (*StreamWriter).Write
+//@   props C26
+//@   light
+//@   assert[value-log-first] before call newWriter : called(write#1) && ret(write#1) == nil
+//@   assert[writer-of-this-stream] before call newWriter : arg0 == sw && arg1 == streamID
+//@   assert[closed-stream-finished] before call Done : called(SignalAndWait)
+
+//@ func (*StreamWriter).newWriter
+//@   props C26
+//@   light
+//@   assert[one-level-above-previous] before return : result0 != nil && result0.level == sw.prevLevel - 1 && result0.streamID == streamID && result0.db == sw.db && result1 == nil
+
+// The entry a stream KV becomes: key at the KV's version, a copy of the value, user meta, meta
+// and expiry as streamed.
+//@ func (*StreamWriter).Write.$1
+//@   props C26 C11
+//@   light
+//@   assert[max-version-covers-entry] before call KeyWithTs : arg0 == kv.Key && arg1 == kv.Version && sw.maxVersion >= kv.Version
+//@   assert[value-copied] before call Copy : arg0 == kv.Value
 
 // ---- call-order rules that recovery relies on (C08, C10): ordering obligations only ----
 // Neither property is decided (a crash point is a cut through the effects of several
